@@ -124,6 +124,10 @@ inline Slot* takeSlot() {
 inline Impl freshImpl() {
   Impl i;
   i.slot = takeSlot();
+  // members the constructors leave uninitialised (m_infoBuf, termios padding ...) read as zero: the
+  // configuration key compares them, stale pool content would only prevent merging and make counts vary
+  memset(i.slot->dev, 0, sizeof(i.slot->dev));
+  memset(i.slot->tr, 0, sizeof(i.slot->tr));
   i.t = new (i.slot->tr) env::SimTransport();
   i.d = new (i.slot->dev) EnhancedDevice(i.t);
   i.d->setListener(&g_rec);
